@@ -1361,3 +1361,16 @@ fire('c10-removal-default-not-merged', 'C10',
      [(POL, "                    self._emit_deprecated_for_removal_warning(default)\n\n                if default.name in self.rules:\n                    continue\n", "                    self._emit_deprecated_for_removal_warning(default)\n                    continue\n\n                if default.name in self.rules:\n                    continue\n")], 'C10.DEFAULTS')
 silent('c19-roles-renamed-loop-var', 'C19',
        [(SH, "[role['name'] for role in access_data['roles']]", "[r['name'] for r in access_data['roles']]")])
+
+# ------------------------------------------------------------------ round 12
+fire('c03-no-empty-store-branch', 'C03',
+     [(POL, "        elif not self.rules:\n            # No rules to reference means we're going to fail closed\n            result = False\n        else:\n            try:\n                to_check = self.rules[rule]",
+       "        else:\n            try:\n                to_check = self.rules[rule]")], 'C03.FAIL-CLOSED')
+fire('c18-upgrade-live-guard', 'C18',
+     [(GEN, "    old_policies = dict(policies)\n    for section in sorted(default_policies.keys()):", "    for section in sorted(default_policies.keys()):"),
+      (GEN, "                    rule_default.deprecated_rule.name in old_policies):", "                    rule_default.deprecated_rule.name in policies):"),
+      (GEN, "                policies.pop(rule_default.deprecated_rule.name, None)\n                old_value = old_policies[rule_default.deprecated_rule.name]",
+       "                old_value = policies.pop(rule_default.deprecated_rule.name)")], 'C18.UPGRADE')
+silent('c18-upgrade-live-test-gates-removal-only', 'C18',
+       [(GEN, "                policies.pop(rule_default.deprecated_rule.name, None)\n",
+         "                if rule_default.deprecated_rule.name in policies:\n                    del policies[rule_default.deprecated_rule.name]\n")])
